@@ -34,6 +34,9 @@ Proof.
   cbn [t0 t1 t2 t3 t4 t5 t6 t7 t8] in *. f_equal; field; exact H.
 Qed.
 
+Lemma inv33_both p : det33 K p <> 0 -> mul33 p (inv33 K p) = id33 /\ mul33 (inv33 K p) p = id33.
+Proof. intros H. split; [apply inv33_right | apply inv33_left]; exact H. Qed.
+
 Lemma det_inv33 p : det33 K p <> 0 -> det33 K (inv33 K p) * det33 K p = 1.
 Proof. intros H. destruct p; unfold inv33, det33 in *; cbn in *. field. exact H. Qed.
 
@@ -114,7 +117,7 @@ Proof.
   unfold paint_from in *. cbn [fold_left].
   assert (Hnext : exists m1, holds (step st o c) m1 /\ ok m1 /\
             top_mat c (o :: r) m0 = top_mat c r m1).
-  { unfold step, top_mat. cbn [last_cover]. unfold covers, mask_at.
+  { unfold step, top_mat. cbv zeta. cbn [last_cover]. unfold covers, mask_at.
     destruct (in_box c (r_box K o)) eqn:Eb; cbn [andb].
     - destruct (r_mask K o) as [mk|] eqn:Em.
       + destruct (mk (local c (r_box K o))) eqn:Emk.
@@ -138,7 +141,7 @@ Proof.
   destruct (in_box c (r_box K o)) eqn:Eb.
   - destruct (r_mask K o) as [mk|] eqn:Em; [discriminate|].
     assert (Hs : holds (step st o c) (r_mat K o)).
-    { unfold step. rewrite Eb, Em. apply H_uni. }
+    { unfold step. cbv zeta. rewrite Eb, Em. apply H_uni. }
     pose proof (paint_from_written c r _ _ Hs Ho Hr) as P. unfold top_mat in P.
     cbn [last_cover]. unfold covers, mask_at. rewrite Eb, Em. cbn [andb].
     destruct (last_cover K c r) as [b|]; eexists; split; try reflexivity; exact P.
@@ -456,18 +459,58 @@ Proof.
   cbn [out_eps_n out_eps out_mu out_sige out_sigm].
   split; [reflexivity|]. split; [unfold tab_inv; apply combine_map_self|].
   split.
-  { rewrite <- Fb. destruct (forallb _ (all_materials K objs)); split; intros H; try reflexivity; try discriminate H. }
+  { rewrite <- Fb. destruct (forallb (fun m => negb (is_magnetic K rel m)) (all_materials K objs)); split; intros H; try reflexivity; try discriminate H. }
   split.
   { intros n a. destruct (forallb (fun m => negb (is_magnetic K rel m)) (all_materials K objs)); [discriminate|].
     intros E; inversion E; subst. split; [reflexivity | unfold tab_inv; apply combine_map_self]. }
   split.
-  { rewrite <- Fb. destruct (forallb _ (all_materials K objs)); split; intros H; try reflexivity; try discriminate H. Show. }
+  { rewrite <- Fb. destruct (forallb (fun m => negb (is_econductive K rel m)) (all_materials K objs)); split; intros H; try reflexivity; try discriminate H. }
   split.
   { intros n a. destruct (forallb (fun m => negb (is_econductive K rel m)) (all_materials K objs)); [discriminate|].
     intros E; inversion E; subst. split; [reflexivity | unfold tab_cond; apply combine_map_self]. }
   split.
-  { rewrite <- Fb. destruct (forallb _ (all_materials K objs)); split; intros H; try reflexivity; try discriminate H. }
+  { rewrite <- Fb. destruct (forallb (fun m => negb (is_mconductive K rel m)) (all_materials K objs)); split; intros H; try reflexivity; try discriminate H. }
   { intros n a. destruct (forallb (fun m => negb (is_mconductive K rel m)) (all_materials K objs)); [discriminate|].
     intros E; inversion E; subst. split; [reflexivity | unfold tab_cond; apply combine_map_self]. }
 Qed.
 End PaintLookupTiers.
+
+Section PaintNonMagnetic.
+Variable K : OFld.
+Add Field KF3 : (Fth K).
+Local Open Scope fld_scope.
+Notation RObj := (RObj K).
+
+Lemma det_id33 : det33 K (id33 K) = 1.
+Proof. unfold det33, id33. cbn [t0 t1 t2 t3 t4 t5 t6 t7 t8]. ring. Qed.
+Lemma id33_ok t : vec_ok K t (pick K t (id33 K)).
+Proof.
+  destruct t; cbn [vec_ok pick].
+  - apply one_neq_zero.
+  - unfold id33; cbn [t0 t4 t8]. repeat split; apply one_neq_zero.
+  - rewrite det_id33. apply one_neq_zero.
+Qed.
+Lemma vinv_id33 t : vinv K t (pick K t (id33 K)) = pick K t (id33 K).
+Proof.
+  pose proof (one_neq_zero K) as H1.
+  assert (E1 : / (1 : K) = 1) by (field; exact H1).
+  destruct t.
+  - change (/ (1 : K) = 1). exact E1.
+  - change ((/ (1 : K), / (1 : K), / (1 : K)) = ((1 : K), (1 : K), (1 : K))). rewrite E1. reflexivity.
+  - change (inv33 K (id33 K) = id33 K). unfold inv33. rewrite det_id33.
+    unfold id33; cbn [t0 t1 t2 t3 t4 t5 t6 t7 t8]. f_equal; field; exact H1.
+Qed.
+
+(* when every material has the identity permeability exactly, the array the magnetic branch would
+   build holds 1 in every grounded cell: storing the scalar 1.0 loses nothing *)
+Theorem nonmagnetic_array_would_be_one t objs c :
+  Forall (fun o : RObj => m_mu K (r_mat K o) = id33 K) objs -> grounded K c (sort_objs K objs) = true ->
+  paint_inv K t (m_mu K) objs c = Some (pick K t (id33 K)).
+Proof.
+  intros Hid Hg.
+  destruct (paint_inv_top K t (m_mu K) objs c) as (o & (i & Hi & _) & Hp).
+  - eapply Forall_impl; [|exact Hid]. intros o Ho. unfold inv_ok. rewrite Ho. apply id33_ok.
+  - exact Hg.
+  - rewrite Hp. rewrite Forall_forall in Hid. rewrite (Hid o (nth_error_In _ _ Hi)). rewrite vinv_id33. reflexivity.
+Qed.
+End PaintNonMagnetic.
